@@ -7,6 +7,7 @@ From KV Require Import Lib.Bits Lib.Bytes Lib.Varint Model.MsgSetReader Model.Re
   Proofs.ReaderPrim Proofs.ReaderV2.
 Import ListNotations.
 Open Scope Z_scope.
+Set Default Timeout 30.
 
 Section Run.
 Variable decomp : Z -> list N -> option (list N).
@@ -281,18 +282,137 @@ Proof.
     + rewrite ztake_app_ge by lia. rewrite H61.
       rewrite (loop_step_ok f b _ 0 hdr 0 el Hfit).
       destruct (pb_recs b) as [|r rs'] eqn:Erecs.
-      * cbn [length Z.of_nat Z.eqb].
+      * change (Z.of_nat (length (@nil record)) =? 0) with true. cbv iota.
         assert (Hp : plen_of b = 0) by (unfold plen_of; rewrite Erecs; reflexivity).
         rewrite Hp. cbn [enc_records flat_map app].
         destruct (IH (j - 61) (hdr_of b) (pb_base b + pb_lod b) f Hbs' ltac:(lia) ltac:(lia))
           as [(i' & hdr' & el' & H1 & H2)|(b2 & r2 & rs2 & bs2 & j2 & el2 & K1 & K2 & K3 & K4 & K5 & K6)].
         -- left. exists i', hdr', el'. split; [exact H1|exact H2].
-        -- right. exists b2, r2, rs2, bs2, j2, el2. split; [exact K1|]. split; [exact K2|]. split; [exact K3|]. split; [exact K4|]. Show. split; [exact K5|exact K6].
+        -- right. exists b2, r2, rs2, bs2, j2, el2. split; [exact K1|]. split; [exact K2|]. split; [exact K3|]. split; [exact K4|]. split; [exact K5|exact K6].
       * right. exists b, r, rs', bs', (j - 61), el.
         split; [exact Hb|]. split; [exact Erecs|]. split; [lia|]. split; [exact Hbs'|].
         split; [|reflexivity].
         replace (Z.of_nat (length (r :: rs')) =? 0) with false by (cbn [length]; lia).
-        f_equal. unfold plen_of, erecs. rewrite Erecs. cbn [length]. reflexivity.
+        f_equal. unfold plen_of, erecs. rewrite Erecs. cbn [length]. rewrite blen_len. reflexivity.
+Qed.
+
+Lemma bind_same {A B} (a : M A) (k : A -> M B) m1 m2 v m :
+  a m1 = MOk v m -> a m2 = MOk v m -> bind a k m1 = bind a k m2.
+Proof. intros H1 H2. unfold bind. rewrite H1, H2. reflexivity. Qed.
+
+Lemma read_header_idle fuel i h lr el :
+  read_header fuel (st i 0 h lr el) = read_header_loop fuel (st i 0 h lr el).
+Proof. unfold read_header. rewrite top_st. reflexivity. Qed.
+
+Lemma msr_read_via_loop_ok fuel mn i h lr el i2 c2 h2 lr2 el2 :
+  read_header_loop fuel (st i 0 h lr el) = MOk tt (st i2 c2 h2 lr2 el2) -> 0 < c2 ->
+  msr_read decomp fuel mn (st i 0 h lr el) = msr_read decomp fuel mn (st i2 c2 h2 lr2 el2).
+Proof.
+  intros Hl Hc. unfold msr_read. cbn [m_empty st].
+  apply (bind_same _ _ _ _ tt (st i2 c2 h2 lr2 el2)).
+  - rewrite read_header_idle. exact Hl.
+  - apply read_header_busy. exact Hc.
+Qed.
+
+Lemma msr_read_via_loop_err fuel mn i h lr el e m' :
+  read_header_loop fuel (st i 0 h lr el) = MErr e m' ->
+  msr_read decomp fuel mn (st i 0 h lr el) = MErr e m'.
+Proof.
+  intros Hl. unfold msr_read. cbn [m_empty st]. unfold bind at 1.
+  rewrite read_header_idle, Hl. reflexivity.
+Qed.
+
+Lemma b1_same_msr fuel m1 m2 off last :
+  msr_read decomp fuel off m1 = msr_read decomp fuel off m2 ->
+  batch_read1 decomp fuel (BSt m1 off last) = batch_read1 decomp fuel (BSt m2 off last).
+Proof. intros H. unfold batch_read1, BSt. cbn [b_err b_msgs b_off]. rewrite H. reflexivity. Qed.
+
+Lemma rec_step_inv b r rs' bs j off el r0 p' :
+  rec_step b r rs' bs j off el = ARec r0 p' ->
+  r0 = r /\ a_b p' = b /\ a_rs p' = rs' /\ a_bs p' = bs /\ a_hdr p' = hdr_of b /\ a_el p' = el
+  /\ a_j p' = j - len (enc_record (pb_base b) (pb_ts b) r) /\ len (enc_record (pb_base b) (pb_ts b) r) <= j
+  /\ a_last p' = pb_base b + pb_lod b
+  /\ a_off p' = (let off1 := if off <=? r_off r then r_off r + 1 else off in
+                 if (len (erecs b rs') =? 0) && (off1 <=? pb_base b + pb_lod b) then pb_base b + pb_lod b + 1 else off1).
+Proof.
+  unfold rec_step. cbv zeta. destruct (j <? len (enc_record (pb_base b) (pb_ts b) r)) eqn:E; [discriminate|].
+  intros H. injection H as <- <-. cbn [a_b a_rs a_bs a_j a_hdr a_off a_last a_el]. repeat split; try reflexivity; lia.
+Qed.
+
+Lemma tokens_cons_rec r rs bs : tokens (r :: rs) bs = S (tokens rs bs).
+Proof. reflexivity. Qed.
+Lemma tokens_cons_batch b bs : tokens [] (b :: bs) = S (tokens (pb_recs b) bs).
+Proof. unfold tokens. cbn [length fold_right]. lia. Qed.
+
+Lemma incl_tail {A} (x : A) l l' : incl (x :: l) l' -> incl l l'.
+Proof. intros H y Hy. apply H. right. exact Hy. Qed.
+
+(* one call of Batch.readMessage at an abstract position *)
+Lemma b1_step p fuel : pos_ok p -> (length (a_bs p) < fuel)%nat ->
+  match step1 p with
+  | ARec r p' => batch_read1 decomp fuel (conc p) = BMsg (msg_of r) (conc p') /\ pos_ok p'
+                 /\ (tokens (a_rs p') (a_bs p') < tokens (a_rs p) (a_bs p))%nat
+                 /\ (length (a_bs p') <= length (a_bs p))%nat
+  | AEnd f => exists b', batch_read1 decomp fuel (conc p) = BErr EEOF b' /\ b_off b' = f
+  end.
+Proof.
+  intros (Hj & Hbs & Hin) Hfuel. unfold step1.
+  destruct p as [b rs bs j hdr off last el]. cbn [a_b a_rs a_bs a_j a_hdr a_off a_last a_el] in *.
+  destruct rs as [|r rs'].
+  - (* at a batch boundary *)
+    unfold conc. cbn [a_b a_rs a_bs a_j a_hdr a_off a_last a_el length Z.of_nat].
+    change (erecs b []) with (@nil N). cbn [app]. change (len []) with 0.
+    fold (BSt (st (ztake j (encs bs)) 0 hdr 0 el) off last).
+    destruct (loop_bnd bs j hdr el fuel Hbs Hj Hfuel)
+      as [(i' & hdr' & el' & H1 & H2)|(b2 & r2 & rs2 & bs2 & j2 & el2 & K1 & K2 & K3 & K4 & K5 & K6)].
+    + rewrite H2.
+      pose proof (msr_read_via_loop_err fuel off _ _ _ _ _ _ H1) as Hm.
+      destruct (b1_of_short fuel _ _ _ _ _ off last _ _ _ _ _ Hm) as (b' & Hb1 & Hb2).
+      exists b'. split; [exact Hb1|]. rewrite Hb2. reflexivity.
+    + rewrite K6.
+      pose proof (msr_read_via_loop_ok fuel off _ _ _ _ _ _ _ _ _ K5 ltac:(lia)) as Hm.
+      rewrite (b1_same_msr fuel _ _ off last Hm).
+      assert (Hincl : incl (r2 :: rs2) (pb_recs b2)) by (rewrite K2; apply incl_refl).
+      pose proof (b1_in fuel b2 r2 rs2 bs2 j2 off last el2 K1 Hincl K3) as Hb.
+      destruct (rec_step b2 r2 rs2 bs2 j2 off el2) as [r0 p'|f] eqn:Ers; [|exact Hb].
+      split; [exact Hb|].
+      destruct (rec_step_inv _ _ _ _ _ _ _ _ _ Ers) as (E0 & E1 & E2 & E3 & E4 & E5 & E6 & E7 & _).
+      (* bs2 is a suffix of bs after b2 *)
+      assert (Hsuf : (S (tokens (pb_recs b2) bs2) <= tokens [] bs)%nat /\ (length bs2 < length bs)%nat).
+      { clear -K6 K2 Hj. revert j el K6 Hj.
+        induction bs as [|b0 bs0 IH]; intros j el K6 Hj.
+        - specialize (K6 0 0). cbn [bstep] in K6. unfold rec_step in K6. cbv zeta in K6.
+          destruct (_ <? _) in K6; discriminate K6.
+        - cbn [bstep] in K6. destruct (j <? 61) eqn:Ej.
+          + specialize (K6 0 0). unfold rec_step in K6. cbv zeta in K6. destruct (_ <? _) in K6; discriminate K6.
+          + destruct (pb_recs b0) as [|r0' rs0'] eqn:Er0.
+            * destruct (IH (j - 61) (pb_base b0 + pb_lod b0) K6 ltac:(lia)) as [I1 I2].
+              rewrite tokens_cons_batch. unfold tokens in *. cbn [length] in *. lia.
+            * assert (Heq : b0 = b2 /\ bs0 = bs2).
+              { specialize (K6 0 0). unfold rec_step in K6. cbv zeta in K6.
+                destruct (j - 61 <? _) in K6; destruct (j2 <? _) in K6; try discriminate K6.
+                injection K6 as _ Hb0 _ Hbs0 _. auto. }
+              destruct Heq as [-> ->]. rewrite tokens_cons_batch. cbn [length]. lia. }
+      rewrite K2 in Hsuf. destruct Hsuf as [Hs1 Hs2].
+      split; [|split].
+      * unfold pos_ok. rewrite E1, E2, E3, E4, E6. split; [lia|]. split; [exact K4|].
+        intros _. split; [exact K1|]. split; [reflexivity|]. apply (incl_tail r2). exact Hincl.
+      * rewrite E2, E3. rewrite tokens_cons_rec in Hs1. lia.
+      * rewrite E3. cbn [a_bs]. lia.
+  - (* inside a batch *)
+    destruct (Hin ltac:(discriminate)) as (Hok & Hh & Hincl). subst hdr.
+    unfold conc. cbn [a_b a_rs a_bs a_j a_hdr a_off a_last a_el].
+    fold (BSt (st (ztake j (erecs b (r :: rs') ++ encs bs)) (Z.of_nat (length (r :: rs'))) (hdr_of b)
+                  (len (erecs b (r :: rs'))) el) off last).
+    pose proof (b1_in fuel b r rs' bs j off last el Hok Hincl Hj) as Hb. cbn [length].
+    destruct (rec_step b r rs' bs j off el) as [r0 p'|f] eqn:Ers; [|exact Hb].
+    split; [exact Hb|].
+    destruct (rec_step_inv _ _ _ _ _ _ _ _ _ Ers) as (E0 & E1 & E2 & E3 & E4 & E5 & E6 & E7 & _).
+    split; [|split].
+    + unfold pos_ok. rewrite E1, E2, E3, E4, E6. split; [lia|]. split; [exact Hbs|].
+      intros _. split; [exact Hok|]. split; [reflexivity|]. apply (incl_tail r). exact Hincl.
+    + rewrite E2, E3. rewrite tokens_cons_rec. lia.
+    + rewrite E3. cbn [a_bs]. lia.
 Qed.
 
 End Run.
